@@ -1,6 +1,6 @@
 #!/bin/bash
 # usage: seed_check.sh <seeded dir name, e.g. C08-11> [--tier thorough]  -- run the property's check against a scratch copy of /repo's sources with the seed applied (never /repo)
-D=$1; P=${D%%-*}
+D=$1; P=${SEED_PROP:-${D%%-*}}   # SEED_PROP=Cnn: check the seed against another property (to find registration gaps)
 SCR=/tmp/verif_seedcheck_$D; rm -rf "$SCR"; mkdir -p "$SCR"
 if [ "${2:-}" = "--tier" ]; then
   # the thorough tier builds and runs the real compiler: the scratch copy is a complete workspace (with /repo's build output, so that only the changed crates are rebuilt)
